@@ -933,12 +933,16 @@ class System:
             eff, warn, vsi, iso, vso, isi = [], [], [], [], [], []
             domain, phases, ener, dname, group, rail = [], [], [], "none", [], []
             sources, dwarns, rail_in, pstate = {}, {}, [], {}
+            ndomain = {}
             show_trise = False
             for n in self._topo_nodes:  # [vi, vo, ii, io]
                 phase_config = self._phase_lkup[n]
                 name = self._g[n]._params["name"]
                 names += [name]
+                if self._parents[n] != -1:  # inherit from the feeding component
+                    dname = ndomain[self._parents[n][0]]
                 dname = self._find_domain(n, dname, v)
+                ndomain[n] = dname
                 domain += [dname]
                 phases += [ph]
                 group += [self._g.attrs["groups"][name]]
@@ -1484,7 +1488,7 @@ class System:
             return None
         names, typ, phase = [], [], []
         rs, ii, pwr = [], [], []
-        domain, dname = [], "none"
+        domain, dname, ndomain = [], "none", {}
         phase_names = list(self._g.attrs["phases"].keys())
         self._set_phase_lkup()
         src_cnt = 0
@@ -1493,6 +1497,9 @@ class System:
             if tname == "SOURCE":
                 dname = self._g[n]._params["name"]
                 src_cnt += 1
+            else:  # inherit from the (first) feeding component
+                dname = ndomain[self._parents[n][0]]
+            ndomain[n] = dname
             ph_names = []
             if tname == "SLOSS":
                 ph_names += ["N/A"]
